@@ -486,3 +486,11 @@ def main(fn):
     except subprocess.TimeoutExpired as e:
         sys.stderr.write("INFRA-ERROR: timeout %s\n" % e)
         sys.exit(2)
+    except SystemExit:
+        raise
+    except BaseException:
+        # a crash of the check itself says nothing about the property: never exit 1
+        import traceback
+        traceback.print_exc()
+        sys.stderr.write("INFRA-ERROR: uncaught exception in the check\n")
+        sys.exit(2)
